@@ -342,4 +342,657 @@ Proof.
   cbv [Lattice.term_valid t_labels t_orbs t_spins all3]. rewrite H1, H2. reflexivity.
 Qed.
 
+
+(** * Layer 3: the LatticePresets functions *)
+
+Ltac iok := (eapply item_ok_intro; [eassumption | unfold spin_up, spin_down; lia | unfold spin_up, spin_down; lia]).
+Ltac thrown := (eexists; reflexivity).
+
+Lemma fac_splus (m : site_map L) (l1 l2 : L) (v : V) (o : nat) :
+  item_ok m l1 o spin_up = true -> item_ok m l1 o spin_down = true ->
+  item_ok m l2 o spin_up = true -> item_ok m l2 o spin_down = true ->
+  exists t, factory (FSplusSminus4 l1 l2 v o) = Done t /\ term_valid m t = true.
+Proof. intros H1 H2 H3 H4. exact (proj1 (fac_spm m l1 l2 v o H1 H2 H3 H4)). Qed.
+
+Lemma fac_sminus (m : site_map L) (l1 l2 : L) (v : V) (o : nat) :
+  item_ok m l1 o spin_up = true -> item_ok m l1 o spin_down = true ->
+  item_ok m l2 o spin_up = true -> item_ok m l2 o spin_down = true ->
+  exists t, factory (FSminusSplus4 l1 l2 v o) = Done t /\ term_valid m t = true.
+Proof. intros H1 H2 H3 H4. exact (proj2 (fac_spm m l1 l2 v o H1 H2 H3 H4)). Qed.
+
+(** structural decomposition of an effect; leaves are pushes of factory terms *)
+Ltac wg :=
+  repeat first
+    [ apply wgood_ret
+    | apply wgood_seq
+    | apply wgood_when; intros ?
+    | apply wgood_for; intros ? ?
+    | apply wgood_push_f ].
+Ltac leaf :=
+  first [ apply fac_level | apply fac_nn6 | apply fac_nn7 | apply fac_spinflip | apply fac_pairhop
+        | apply fac_splus | apply fac_sminus ]; try iok; try lia.
+
+Definition spec_of (m : site_map L) (defined : bool) (w : W) : Prop :=
+  if defined then wgood (valid m) w else exists c, w = ([], Throws c).
+
+Lemma coulombS_spec (m : site_map L) (l : L) (U lev : V) :
+  spec_of m (preset_defined m (PCoulombS l U lev)) (addCoulombS L leqb V vo m l U lev).
+Proof.
+  unfold spec_of. cbn [Lattice.preset_defined]. unfold addCoulombS.
+  destruct (find_site l m) as [[norb nspin]|] eqn:E; [|thrown].
+  wg; leaf.
+Qed.
+
+Lemma level_spec (m : site_map L) (l : L) (lev : V) :
+  spec_of m (preset_defined m (PLevel l lev)) (addLevel L leqb V vo m l lev).
+Proof.
+  unfold spec_of. cbn [Lattice.preset_defined]. unfold addLevel.
+  destruct (find_site l m) as [[norb nspin]|] eqn:E; [|thrown].
+  wg; leaf.
+Qed.
+
+Lemma coulombP_spec (m : site_map L) (l : L) (U Up J lev : V) :
+  spec_of m (preset_defined m (PCoulombP l U Up J lev)) (addCoulombP L leqb V vo m l U Up J lev).
+Proof.
+  unfold spec_of. cbn [Lattice.preset_defined]. unfold addCoulombP.
+  destruct (find_site l m) as [[norb nspin]|] eqn:E; [|thrown].
+  destruct ((1 <? norb) && (1 <? nspin)) eqn:D.
+  - replace ((norb <=? 1) || (nspin <=? 1)) with false by lia.
+    wg; leaf.
+  - replace ((norb <=? 1) || (nspin <=? 1)) with true by lia. thrown.
+Qed.
+
+Lemma magnetization_spec (m : site_map L) (l : L) (mag : V) :
+  spec_of m (preset_defined m (PMagnetization l mag)) (addMagnetization L leqb V vo m l mag).
+Proof.
+  unfold spec_of. cbn [Lattice.preset_defined]. unfold addMagnetization.
+  destruct (find_site l m) as [[norb nspin]|] eqn:E; [|thrown].
+  destruct (nspin =? 2) eqn:D; cbn [negb]; [|thrown].
+  wg; leaf.
+Qed.
+
+Lemma szsz_spec (cfg : config) (m : site_map L) (l1 l2 : L) (J : V) :
+  fix_shapecheck cfg = true ->
+  spec_of m (preset_defined m (PSzSz l1 l2 J)) (addSzSz L leqb V vo cfg m l1 l2 J).
+Proof.
+  intros F. unfold spec_of. cbn [Lattice.preset_defined]. unfold addSzSz, cmp_spins, same_shape. rewrite F.
+  destruct (find_site l1 m) as [[a1 b1]|] eqn:E1; [|thrown].
+  destruct (find_site l2 m) as [[a2 b2]|] eqn:E2; [|thrown].
+  cbn [fst snd].
+  destruct ((a1 =? a2) && (b1 =? b2) && (b1 =? 2)) eqn:D.
+  - replace (negb (a1 =? a2) || negb (b1 =? b2)) with false by lia.
+    replace (negb (b1 =? 2)) with false by lia.
+    apply wgood_for; intros i Hi.
+    destruct (negb (leqb l1 l2)); wg; leaf.
+  - destruct (negb (a1 =? a2) || negb (b1 =? b2)) eqn:C; [thrown|].
+    replace (negb (b1 =? 2)) with true by lia. thrown.
+Qed.
+
+Lemma ss_spec (cfg : config) (m : site_map L) (l1 l2 : L) (J : V) :
+  fix_shapecheck cfg = true ->
+  spec_of m (preset_defined m (PSS l1 l2 J)) (addSS L leqb V vo cfg m l1 l2 J).
+Proof.
+  intros F. pose proof (szsz_spec cfg m l1 l2 J F) as Hz. revert Hz.
+  unfold spec_of. cbn [Lattice.preset_defined]. unfold addSS, cmp_spins, same_shape. rewrite F.
+  destruct (find_site l1 m) as [[a1 b1]|] eqn:E1; [|intros _; thrown].
+  destruct (find_site l2 m) as [[a2 b2]|] eqn:E2; [|intros _; thrown].
+  cbn [fst snd].
+  destruct ((a1 =? a2) && (b1 =? b2) && (b1 =? 2)) eqn:D; intros Hz.
+  - replace (negb (a1 =? a2) || negb (b1 =? b2)) with false by lia.
+    replace (negb (b1 =? 2)) with false by lia.
+    apply wgood_seq; [exact Hz|].
+    wg; leaf.
+  - destruct (negb (a1 =? a2) || negb (b1 =? b2)) eqn:C; [thrown|].
+    replace (negb (b1 =? 2)) with true by lia. thrown.
+Qed.
+
+Lemma hop8_good (m : site_map L) (l1 l2 : L) (t : V) (o1 o2 s1 s2 : nat) :
+  item_ok m l1 o1 s1 = true -> item_ok m l2 o2 s2 = true ->
+  wgood (valid m) (addHopping8 L leqb V vo m l1 l2 t o1 o2 s1 s2).
+Proof.
+  intros H1 H2.
+  destruct (item_ok_elim m l1 o1 s1 H1) as [a1 [b1 [E1 [Ho1 Hs1]]]].
+  destruct (item_ok_elim m l2 o2 s2 H2) as [a2 [b2 [E2 [Ho2 Hs2]]]].
+  unfold addHopping8. rewrite E1, E2. cbn [fst snd].
+  replace ((a1 <=? o1) || (a2 <=? o2) || (b1 <=? s1) || (b2 <=? s2)) with false by lia.
+  apply wgood_seq; apply wgood_add_f; apply fac_hop7; assumption.
+Qed.
+
+Lemma hop8_spec (m : site_map L) (l1 l2 : L) (t : V) (o1 o2 s1 s2 : nat) :
+  spec_of m (preset_defined m (PHopping8 l1 l2 t o1 o2 s1 s2)) (addHopping8 L leqb V vo m l1 l2 t o1 o2 s1 s2).
+Proof.
+  unfold spec_of. cbn [Lattice.preset_defined].
+  destruct (item_ok m l1 o1 s1 && item_ok m l2 o2 s2) eqn:D.
+  - apply andb_prop in D. destruct D as [D1 D2]. apply hop8_good; assumption.
+  - revert D. unfold addHopping8, Lattice.item_ok.
+    destruct (find_site l1 m) as [[a1 b1]|] eqn:E1; [|intros _; thrown].
+    destruct (find_site l2 m) as [[a2 b2]|] eqn:E2; [|intros _; thrown].
+    cbn [fst snd]. intros D.
+    replace ((a1 <=? o1) || (a2 <=? o2) || (b1 <=? s1) || (b2 <=? s2)) with true by lia. thrown.
+Qed.
+
+Lemma hop6_spec (cfg : config) (m : site_map L) (l1 l2 : L) (t : V) (o1 o2 : nat) :
+  fix_shapecheck cfg = true ->
+  spec_of m (preset_defined m (PHopping6 l1 l2 t o1 o2)) (addHopping6 L leqb V vo cfg m l1 l2 t o1 o2).
+Proof.
+  intros F. unfold spec_of. cbn [Lattice.preset_defined]. unfold addHopping6, cmp_spins. rewrite F.
+  destruct (find_site l1 m) as [[a1 b1]|] eqn:E1; [|thrown].
+  destruct (find_site l2 m) as [[a2 b2]|] eqn:E2; [|thrown].
+  cbn [fst snd].
+  destruct ((o1 <? a1) && (o2 <? a2) && (b1 =? b2)) eqn:D.
+  - replace ((a1 <=? o1) || (a2 <=? o2)) with false by lia.
+    replace (negb (b1 =? b2)) with false by lia.
+    apply wgood_for; intros z Hz. apply hop8_good; iok.
+  - destruct ((a1 <=? o1) || (a2 <=? o2)) eqn:C; [thrown|].
+    replace (negb (b1 =? b2)) with true by lia. thrown.
+Qed.
+
+Lemma hop4_spec (cfg : config) (m : site_map L) (l1 l2 : L) (t : V) :
+  fix_shapecheck cfg = true ->
+  spec_of m (preset_defined m (PHopping4 l1 l2 t)) (addHopping4 L leqb V vo cfg m l1 l2 t).
+Proof.
+  intros F. unfold spec_of. cbn [Lattice.preset_defined]. unfold addHopping4, cmp_spins, same_shape. rewrite F.
+  destruct (find_site l1 m) as [[a1 b1]|] eqn:E1; [|thrown].
+  destruct (find_site l2 m) as [[a2 b2]|] eqn:E2; [|thrown].
+  cbn [fst snd].
+  destruct ((a1 =? a2) && (b1 =? b2)) eqn:D.
+  - replace (negb (a1 =? a2) || negb (b1 =? b2)) with false by lia.
+    apply wgood_for; intros z Hz. apply wgood_for; intros i Hi. apply hop8_good; iok.
+  - replace (negb (a1 =? a2) || negb (b1 =? b2)) with true by lia. thrown.
+Qed.
+
+(** Every preset, with the shape check repaired: on the lattices it is defined for it ends normally and
+    hands only valid terms to the storage; otherwise it throws before anything is stored. *)
+Theorem preset_spec (cfg : config) (m : site_map L) (p : pcall L V) :
+  fix_shapecheck cfg = true ->
+  spec_of m (preset_defined m p) (preset cfg m p).
+Proof.
+  intros F. destruct p; cbn [Lattice.preset].
+  - apply coulombS_spec.
+  - apply coulombP_spec.
+  - unfold addCoulombP3. apply (coulombP_spec m l U (vsub vo U (vdbl vo J)) J lev).
+  - apply level_spec.
+  - apply magnetization_spec.
+  - apply szsz_spec; exact F.
+  - apply ss_spec; exact F.
+  - apply hop8_spec.
+  - unfold addHopping7. apply (hop8_spec m l1 l2 t o1 o2 s s).
+  - apply hop6_spec; exact F.
+  - apply hop4_spec; exact F.
+Qed.
+
+
+(** * Layer 4: the theorems of C20 *)
+
+Notation copy := (copy L V).
+Notation getSite := (getSite L leqb V).
+
+(** the one side condition on calls: a raw term's vectors have the length of its operator sequence (true of
+    every term built with Term's constructors) *)
+Definition op_wf (o : op) : Prop :=
+  match o with
+  | AddTerm t => term_wfb t = true
+  | _ => True
+  end.
+
+Definition is_effect_op (o : op) : bool :=
+  match o with AddTerm _ | AddFactoryTerm _ | Preset _ => true | _ => false end.
+
+Lemma step_effect (cfg : config) (o : op) (st : state) :
+  is_effect_op o = true ->
+  step cfg o st = (push_all (fst (effect cfg (sites st) o)) st, result_of L V (snd (effect cfg (sites st) o))).
+Proof. destruct o; cbn [is_effect_op]; intros E; try discriminate E; reflexivity. Qed.
+
+Lemma effect_other (cfg : config) (m : site_map L) (o : op) :
+  is_effect_op o = false -> effect cfg m o = wret L V.
+Proof. destruct o; cbn [is_effect_op]; intros E; try discriminate E; reflexivity. Qed.
+
+(** ** addTerm *)
+
+Theorem addTerm_rejects_invalid (cfg : config) (st : state) (t : term) :
+  term_wfb t = true -> term_valid (sites st) t = false ->
+  step cfg (AddTerm t) st = (st, Throws exWrongLabel).
+Proof.
+  intros Hwf Hv. rewrite step_effect by reflexivity. cbn [Lattice.effect].
+  rewrite (w_addTerm_spec _ t Hwf), Hv. reflexivity.
+Qed.
+
+Theorem addTerm_zero_ignored (cfg : config) (st : state) (t : term) :
+  term_wfb t = true -> vnz vo (t_val t) = false ->
+  step cfg (AddTerm t) st = (st, if term_valid (sites st) t then Done ONone else Throws exWrongLabel).
+Proof.
+  intros Hwf Hz. rewrite step_effect by reflexivity. cbn [Lattice.effect].
+  rewrite (w_addTerm_spec _ t Hwf), Hz. destruct (term_valid (sites st) t); reflexivity.
+Qed.
+
+Theorem addTerm_accepts_valid (cfg : config) (st : state) (t : term) :
+  term_wfb t = true -> term_valid (sites st) t = true -> vnz vo (t_val t) = true ->
+  step cfg (AddTerm t) st = (ts_add t st, Done ONone) /\
+  sites (ts_add t st) = sites st /\
+  forall n, getTerms (ts_add t st) n = if t_order t =? n then getTerms st n ++ [t] else getTerms st n.
+Proof.
+  intros Hwf Hv Hz. split; [|split].
+  - rewrite step_effect by reflexivity. cbn [Lattice.effect].
+    rewrite (w_addTerm_spec _ t Hwf), Hv, Hz. reflexivity.
+  - reflexivity.
+  - intros n. apply getTerms_ts_add.
+Qed.
+
+(** the terms a raw addTerm contributes to the storage *)
+Lemma effect_addTerm (cfg : config) (m : site_map L) (t : term) :
+  term_wfb t = true ->
+  fst (effect cfg m (AddTerm t)) = if term_valid m t && vnz vo (t_val t) then [t] else [].
+Proof.
+  intros Hwf. cbn [Lattice.effect]. rewrite (w_addTerm_spec _ t Hwf).
+  destruct (term_valid m t); destruct (vnz vo (t_val t)); reflexivity.
+Qed.
+
+(** L.addTerm(Presets::F(...)): undefined argument combinations and invalid terms are rejected *)
+Theorem factoryTerm_rejects (cfg : config) (st : state) (f : fcall L V) :
+  (factory_defined L V f = false -> step cfg (AddFactoryTerm f) st = (st, Throws exWrongIndices)) /\
+  (forall t, factory f = Done t -> term_valid (sites st) t = false ->
+             step cfg (AddFactoryTerm f) st = (st, Throws exWrongLabel)).
+Proof.
+  split.
+  - intros Hd. pose proof (factory_total f) as H. rewrite Hd in H.
+    rewrite step_effect by reflexivity. cbn [Lattice.effect]. unfold Lattice.wadd_f. rewrite H. reflexivity.
+  - intros t E Hv. rewrite step_effect by reflexivity. cbn [Lattice.effect]. unfold Lattice.wadd_f. rewrite E.
+    rewrite (w_addTerm_spec _ t (factory_wf f t E)), Hv. reflexivity.
+Qed.
+
+(** ** every call that adds terms *)
+
+Lemma w_addTerm_fine (m : site_map L) (t : term) :
+  term_wfb t = true -> wfine (valid m) (w_addTerm m t).
+Proof.
+  intros Hwf. rewrite (w_addTerm_spec m t Hwf). destruct (term_valid m t) eqn:Hv.
+  - left. destruct (vnz vo (t_val t)).
+    + apply (wgood_push (valid m)). exact Hv.
+    + apply (wgood_ret (valid m)).
+  - right. thrown.
+Qed.
+
+Lemma effect_fine (cfg : config) (m : site_map L) (o : op) :
+  fix_shapecheck cfg = true -> op_wf o -> wfine (valid m) (effect cfg m o).
+Proof.
+  intros F Hwf. destruct o; cbn [Lattice.effect]; try (left; apply (wgood_ret (valid m))).
+  - apply w_addTerm_fine. exact Hwf.
+  - unfold Lattice.wadd_f. destruct (factory_outcomes f) as [[t E]|E]; rewrite E.
+    + apply w_addTerm_fine. exact (factory_wf f t E).
+    + right. thrown.
+  - pose proof (preset_spec cfg m p F) as H. unfold spec_of in H.
+    destruct (preset_defined m p); [left|right]; exact H.
+Qed.
+
+(** for raw terms and factory terms no repair is needed *)
+Lemma effect_fine_terms (cfg : config) (m : site_map L) (o : op) :
+  (match o with Preset _ => False | _ => True end) -> op_wf o -> wfine (valid m) (effect cfg m o).
+Proof.
+  intros NP Hwf. destruct o; cbn [Lattice.effect]; try (left; apply (wgood_ret (valid m))).
+  - apply w_addTerm_fine. exact Hwf.
+  - unfold Lattice.wadd_f. destruct (factory_outcomes f) as [[t E]|E]; rewrite E.
+    + apply w_addTerm_fine. exact (factory_wf f t E).
+    + right. thrown.
+  - contradiction.
+Qed.
+
+Lemma wfine_forall (P : term -> Prop) (w : W) : wfine P w -> Forall P (fst w).
+Proof. intros [[_ H]|[c ->]]; [exact H|constructor]. Qed.
+
+Lemma wfine_throws (P : term -> Prop) (w : W) (c : nat) : wfine P w -> snd w = Throws c -> fst w = [].
+Proof. intros [[E _]|[c' ->]] H; [rewrite E in H; discriminate H|reflexivity]. Qed.
+
+Lemma wfine_not_oob (P : term -> Prop) (w : W) : wfine P w -> snd w <> OOB.
+Proof. intros [[E _]|[c' ->]]; [rewrite E|]; discriminate. Qed.
+
+Lemma result_of_throws (r : outcome unit) (c : nat) : result_of L V r = Throws c -> r = Throws c.
+Proof. destruct r; cbn [result_of]; intros E; try discriminate E. injection E as ->. reflexivity. Qed.
+
+(** "... is rejected with an exception and leaves the lattice unchanged": whenever ANY call ends with an
+    exception, the lattice is what it was. *)
+Theorem exception_leaves_lattice_unchanged (cfg : config) (o : op) (st st' : state) (c : nat) :
+  fix_shapecheck cfg = true -> op_wf o ->
+  step cfg o st = (st', Throws c) -> st' = st.
+Proof.
+  intros F Hwf E. destruct (is_effect_op o) eqn:K.
+  - rewrite (step_effect cfg o st K) in E. injection E as E1 E2.
+    apply result_of_throws in E2.
+    rewrite (wfine_throws _ _ c (effect_fine cfg (sites st) o F Hwf) E2) in E1. symmetry. exact E1.
+  - destruct o; try discriminate K; cbn [Lattice.step] in E; try (injection E as E1 E2; discriminate E2).
+    injection E as E1 _. symmetry. exact E1.
+Qed.
+
+(** the same for raw terms and factory terms in every variant of the code *)
+Theorem rejected_term_leaves_lattice_unchanged (cfg : config) (o : op) (st st' : state) (c : nat) :
+  (match o with AddTerm _ | AddFactoryTerm _ => True | _ => False end) -> op_wf o ->
+  step cfg o st = (st', Throws c) -> st' = st.
+Proof.
+  intros K Hwf E. assert (K' : is_effect_op o = true) by (destruct o; try contradiction; reflexivity).
+  rewrite (step_effect cfg o st K') in E. injection E as E1 E2. apply result_of_throws in E2.
+  assert (Hf : wfine (valid (sites st)) (effect cfg (sites st) o)).
+  { apply effect_fine_terms; [destruct o; try contradiction; exact I|exact Hwf]. }
+  rewrite (wfine_throws _ _ c Hf E2) in E1. symmetry. exact E1.
+Qed.
+
+(** ** presets *)
+
+Theorem presets_reject_undefined (cfg : config) (st : state) (p : pcall L V) :
+  fix_shapecheck cfg = true -> preset_defined (sites st) p = false ->
+  exists c, step cfg (Preset p) st = (st, Throws c).
+Proof.
+  intros F Hd. pose proof (preset_spec cfg (sites st) p F) as H. unfold spec_of in H. rewrite Hd in H.
+  destruct H as [c Hc]. exists c. rewrite step_effect by reflexivity. cbn [Lattice.effect]. rewrite Hc. reflexivity.
+Qed.
+
+Theorem presets_accept_defined (cfg : config) (st : state) (p : pcall L V) :
+  fix_shapecheck cfg = true -> preset_defined (sites st) p = true ->
+  exists ps, step cfg (Preset p) st = (push_all ps st, Done ONone) /\
+             Forall (fun t => term_valid (sites st) t = true) ps.
+Proof.
+  intros F Hd. pose proof (preset_spec cfg (sites st) p F) as H. unfold spec_of in H. rewrite Hd in H.
+  destruct H as [E Hall]. exists (fst (preset cfg (sites st) p)). split; [|exact Hall].
+  rewrite step_effect by reflexivity. cbn [Lattice.effect]. rewrite E. reflexivity.
+Qed.
+
+(** ** the invariant: every stored term refers to existing sites and in-range orbitals / spins *)
+
+Definition stored_valid (st : state) : Prop :=
+  forall n t, In t (getTerms st n) -> term_valid (sites st) t = true.
+
+Definition shape_le (a b : shape) : Prop := fst a <= fst b /\ snd a <= snd b.
+
+(** Lattice::addSite overwrites (std::map); re-adding a label with a SMALLER shape invalidates terms that
+    were valid when they were added.  The invariant is stated for histories that do not do that. *)
+Definition call_ok (st : state) (o : op) : Prop :=
+  match o with
+  | AddTerm t => term_wfb t = true
+  | AddSite l a b => match find_site l (sites st) with Some s0 => shape_le s0 (a, b) | None => True end
+  | _ => True
+  end.
+
+Fixpoint history_ok (cfg : config) (h : list op) (st : state) : Prop :=
+  match h with
+  | [] => True
+  | o :: h' => call_ok st o /\ history_ok cfg h' (fst (step cfg o st))
+  end.
+
+Lemma call_ok_wf (st : state) (o : op) : call_ok st o -> op_wf o.
+Proof. destruct o; cbn [call_ok op_wf]; auto. Qed.
+
+Lemma all3_mono (f g : L -> nat -> nat -> bool) :
+  (forall l o s, f l o s = true -> g l o s = true) ->
+  forall ls os ss, all3 L f ls os ss = true -> all3 L g ls os ss = true.
+Proof.
+  intros H. induction ls as [|l ls IH]; intros os ss; [reflexivity|].
+  destruct os as [|o os]; [reflexivity|]. destruct ss as [|s ss]; [reflexivity|].
+  cbn [all3]. intros E. apply andb_prop in E. destruct E as [E1 E2].
+  rewrite (H _ _ _ E1), (IH _ _ E2). reflexivity.
+Qed.
+
+Lemma item_ok_grow (m : site_map L) (l : L) (a b : nat) (l0 : L) (o s : nat) :
+  (match find_site l m with Some s0 => shape_le s0 (a, b) | None => True end) ->
+  item_ok m l0 o s = true -> item_ok (set_site l (a, b) m) l0 o s = true.
+Proof.
+  intros G H. destruct (item_ok_elim m l0 o s H) as [a0 [b0 [E [Ho Hs]]]].
+  destruct (leqb_dec l0 l) as [->|N].
+  - rewrite E in G. destruct G as [G1 G2]. cbn [fst snd] in G1, G2.
+    apply (item_ok_intro _ _ _ _ a b); [apply find_set_same|lia|lia].
+  - apply (item_ok_intro _ _ _ _ a0 b0); [rewrite find_set_other by exact N; exact E|lia|lia].
+Qed.
+
+Lemma step_preserves_stored_valid (cfg : config) (o : op) (st : state) :
+  fix_shapecheck cfg = true -> call_ok st o -> stored_valid st -> stored_valid (fst (step cfg o st)).
+Proof.
+  intros F Hok Inv. destruct (is_effect_op o) eqn:K.
+  - rewrite (step_effect cfg o st K). cbn [fst]. intros n t Hin.
+    rewrite sites_push_all. rewrite getTerms_push_all in Hin. apply in_app_or in Hin. destruct Hin as [Hin|Hin].
+    + apply (Inv n t Hin).
+    + apply filter_In in Hin. destruct Hin as [Hin _].
+      pose proof (wfine_forall _ _ (effect_fine cfg (sites st) o F (call_ok_wf st o Hok))) as Hall.
+      rewrite Forall_forall in Hall. apply Hall. exact Hin.
+  - destruct o; try discriminate K; cbn [Lattice.step fst]; try exact Inv.
+    + intros n t Hin. cbn [sites]. unfold Lattice.term_valid.
+      apply (all3_mono (item_ok (sites st))).
+      * intros l0 o s. apply item_ok_grow. exact Hok.
+      * apply (Inv n t). exact Hin.
+    + intros n t Hin. apply (Inv n t). exact Hin.
+Qed.
+
+Theorem stored_terms_valid_from (cfg : config) :
+  fix_shapecheck cfg = true ->
+  forall (h : list op) (st : state), stored_valid st -> history_ok cfg h st -> stored_valid (run cfg h st).
+Proof.
+  intros F. induction h as [|o h IH]; intros st Inv Hok.
+  - exact Inv.
+  - destruct Hok as [Hc Hh]. change (run cfg (o :: h) st) with (run cfg h (fst (step cfg o st))).
+    apply IH; [apply step_preserves_stored_valid; assumption|exact Hh].
+Qed.
+
+Theorem stored_terms_valid (cfg : config) (h : list op) :
+  fix_shapecheck cfg = true -> history_ok cfg h init ->
+  forall n t, In t (getTerms (run cfg h init) n) -> term_valid (sites (run cfg h init)) t = true.
+Proof.
+  intros F Hok. apply (stored_terms_valid_from cfg F h init); [|exact Hok].
+  intros n t Hin. destruct Hin.
+Qed.
+
+(** and, without any condition on the history: what a call stores is valid for the sites of that moment *)
+Theorem pushes_valid_when_stored (cfg : config) (o : op) (st : state) :
+  fix_shapecheck cfg = true -> op_wf o ->
+  Forall (fun t => term_valid (sites st) t = true) (fst (effect cfg (sites st) o)).
+Proof. intros F Hwf. apply wfine_forall. apply effect_fine; assumption. Qed.
+
+(** ** no undefined behaviour *)
+Theorem no_undefined_behaviour (cfg : config) (o : op) (st : state) :
+  fix_getsite cfg = true -> fix_shapecheck cfg = true -> op_wf o ->
+  snd (step cfg o st) <> OOB.
+Proof.
+  intros G F Hwf. destruct (is_effect_op o) eqn:K.
+  - rewrite (step_effect cfg o st K). cbn [snd].
+    pose proof (wfine_not_oob _ _ (effect_fine cfg (sites st) o F Hwf)) as H.
+    destruct (snd (effect cfg (sites st) o)); cbn [result_of]; try discriminate. contradiction.
+  - destruct o; try discriminate K; cbn [Lattice.step snd]; try discriminate.
+    unfold Lattice.getSite. rewrite G. destruct (find_site l (sites st)); discriminate.
+Qed.
+
+(** ** getSite *)
+
+Lemma sites_step (cfg : config) (o : op) (st : state) :
+  sites (fst (step cfg o st)) =
+  match o with AddSite l a b => set_site l (a, b) (sites st) | _ => sites st end.
+Proof.
+  destruct (is_effect_op o) eqn:K.
+  - rewrite (step_effect cfg o st K). cbn [fst]. rewrite sites_push_all. destruct o; try discriminate K; reflexivity.
+  - destruct o; try discriminate K; reflexivity.
+Qed.
+
+Lemma find_site_run (cfg : config) (l : L) :
+  forall (h : list op) (st : state),
+  find_site l (sites (run cfg h st)) = last_added L leqb V l h (find_site l (sites st)).
+Proof.
+  induction h as [|o h IH]; intros st; [reflexivity|].
+  change (run cfg (o :: h) st) with (run cfg h (fst (step cfg o st))).
+  rewrite IH, sites_step. destruct o; cbn [last_added]; try reflexivity.
+  f_equal. destruct (leqb_dec l l0) as [->|N].
+  - rewrite leqb_refl. apply find_set_same.
+  - rewrite (leqb_neq l l0 N). apply find_set_other. exact N.
+Qed.
+
+(** Looking up a site by label returns the shape most recently added under that label, and fails with
+    exWrongLabel for a label that was never added -- after every history. *)
+Theorem getSite_spec (cfg : config) (h : list op) (l : L) :
+  fix_getsite cfg = true ->
+  step cfg (GetSite l) (run cfg h init) =
+  (run cfg h init, match last_added L leqb V l h None with
+                   | Some s => Done (OSite s)
+                   | None => Throws exWrongLabel
+                   end).
+Proof.
+  intros G. cbn [Lattice.step]. unfold Lattice.getSite. rewrite G, find_site_run. reflexivity.
+Qed.
+
+Definition not_readded (l : L) (h : list op) : Prop := forall k a b, In (AddSite k a b) h -> k <> l.
+
+Lemma last_added_app (l : L) (h1 h2 : list op) (acc : option shape) :
+  last_added L leqb V l (h1 ++ h2) acc = last_added L leqb V l h2 (last_added L leqb V l h1 acc).
+Proof.
+  revert acc. induction h1 as [|o h1 IH]; intros acc; [reflexivity|].
+  cbn [app last_added]. destruct o; apply IH.
+Qed.
+
+Lemma last_added_not_readded (l : L) (h : list op) (acc : option shape) :
+  not_readded l h -> last_added L leqb V l h acc = acc.
+Proof.
+  revert acc. induction h as [|o h IH]; intros acc N; [reflexivity|].
+  assert (N' : not_readded l h) by (intros k a b Hin; apply (N k a b); right; exact Hin).
+  destruct o; cbn [last_added]; try (apply IH; exact N').
+  rewrite (leqb_neq l l0).
+  - apply IH; exact N'.
+  - intros ->. apply (N l0 norb nspin); [left; reflexivity|reflexivity].
+Qed.
+
+Theorem getSite_after_addSite (cfg : config) (h1 h2 : list op) (l : L) (a b : nat) :
+  fix_getsite cfg = true -> not_readded l h2 ->
+  snd (step cfg (GetSite l) (run cfg (h1 ++ AddSite l a b :: h2) init)) = Done (OSite (a, b)).
+Proof.
+  intros G N. rewrite (getSite_spec cfg _ l G). cbn [snd].
+  rewrite last_added_app. cbn [last_added]. rewrite leqb_refl, (last_added_not_readded l h2 _ N). reflexivity.
+Qed.
+
+Theorem getSite_unknown_fails (cfg : config) (h : list op) (l : L) :
+  fix_getsite cfg = true -> not_readded l h ->
+  step cfg (GetSite l) (run cfg h init) = (run cfg h init, Throws exWrongLabel).
+Proof.
+  intros G N. rewrite (getSite_spec cfg _ l G), (last_added_not_readded l h None N). reflexivity.
+Qed.
+
+(** ** terms are retrievable by order *)
+
+Lemma getTerms_step (cfg : config) (o : op) (st : state) (n : nat) :
+  getTerms (fst (step cfg o st)) n =
+  getTerms st n ++ filter (fun t => t_order t =? n) (fst (effect cfg (sites st) o)).
+Proof.
+  destruct (is_effect_op o) eqn:K.
+  - rewrite (step_effect cfg o st K). cbn [fst]. apply getTerms_push_all.
+  - rewrite (effect_other cfg _ o K). cbn [fst wret filter]. rewrite app_nil_r.
+    destruct o; try discriminate K; reflexivity.
+Qed.
+
+Lemma maxorder_step (cfg : config) (o : op) (st : state) :
+  maxorder (fst (step cfg o st)) =
+  fold_left Nat.max (map t_order (fst (effect cfg (sites st) o))) (maxorder st).
+Proof.
+  destruct (is_effect_op o) eqn:K.
+  - rewrite (step_effect cfg o st K). cbn [fst]. apply maxorder_push_all.
+  - rewrite (effect_other cfg _ o K). cbn [fst wret map fold_left].
+    destruct o; try discriminate K; reflexivity.
+Qed.
+
+Lemma getTerms_run (cfg : config) (n : nat) :
+  forall (h : list op) (st : state),
+  getTerms (run cfg h st) n = getTerms st n ++ filter (fun t => t_order t =? n) (accepted cfg h st).
+Proof.
+  induction h as [|o h IH]; intros st.
+  - cbn [Lattice.accepted filter]. rewrite app_nil_r. reflexivity.
+  - change (run cfg (o :: h) st) with (run cfg h (fst (step cfg o st))).
+    rewrite IH, getTerms_step. cbn [Lattice.accepted]. rewrite filter_app, app_assoc. reflexivity.
+Qed.
+
+Lemma maxorder_run (cfg : config) :
+  forall (h : list op) (st : state),
+  maxorder (run cfg h st) = fold_left Nat.max (map t_order (accepted cfg h st)) (maxorder st).
+Proof.
+  induction h as [|o h IH]; intros st; [reflexivity|].
+  change (run cfg (o :: h) st) with (run cfg h (fst (step cfg o st))).
+  rewrite IH, maxorder_step. cbn [Lattice.accepted]. rewrite map_app, fold_left_app. reflexivity.
+Qed.
+
+(** getTerms n returns exactly the terms of order n that were accepted during the history, in the order
+    in which they were accepted; MaxTermOrder is the largest order accepted.  (Every variant of the code.) *)
+Theorem getTerms_by_order (cfg : config) (h : list op) (n : nat) :
+  step cfg (GetTerms n) (run cfg h init) =
+  (run cfg h init, Done (OTerms (filter (fun t => t_order t =? n) (accepted cfg h init)))).
+Proof. cbn [Lattice.step]. rewrite getTerms_run. reflexivity. Qed.
+
+Theorem maxOrder_spec (cfg : config) (h : list op) :
+  step cfg MaxOrder (run cfg h init) =
+  (run cfg h init, Done (ONat (fold_left Nat.max (map t_order (accepted cfg h init)) 0))).
+Proof. cbn [Lattice.step]. rewrite maxorder_run. reflexivity. Qed.
+
+(** ** copies *)
+Theorem copy_same_model (st : state) :
+  copy st = st /\ sites (copy st) = sites st /\ (forall n, getTerms (copy st) n = getTerms st n) /\
+  maxorder (copy st) = maxorder st.
+Proof. destruct st. repeat split; reflexivity. Qed.
+
+Theorem copy_behaves_the_same (cfg : config) (o : op) (st : state) :
+  step cfg o (fst (step cfg Copy st)) = step cfg o st.
+Proof. cbn [Lattice.step fst]. rewrite (proj1 (copy_same_model st)). reflexivity. Qed.
+
+(** the lattice that was copied from is not affected by later calls on the copy (interpreter of the check) *)
+Theorem copy_keeps_original (cfg : config) (r : rstate L V) :
+  rstep L leqb V vo cfg Copy r = (mkR (cur r) (origs r ++ [cur r]), Done ONone).
+Proof. unfold rstep. cbn [Lattice.step]. rewrite (proj1 (copy_same_model (cur r))). reflexivity. Qed.
+
+Theorem originals_frozen (cfg : config) (o : op) (r : rstate L V) :
+  o <> Copy -> origs (fst (rstep L leqb V vo cfg o r)) = origs r.
+Proof.
+  intros N. unfold rstep. destruct (step cfg o (cur r)) as [s x]. destruct o; try reflexivity. contradiction.
+Qed.
+
+(** ** the judgement used by the check is sound: the repaired model passes every clause at every call *)
+
+Lemma list_eqb_refl {A} (e : A -> A -> bool) (l : list A) : (forall x, e x x = true) -> list_eqb e l l = true.
+Proof. intros H. induction l as [|x l IH]; [reflexivity|]. cbn [list_eqb]. rewrite H, IH. reflexivity. Qed.
+
+Lemma term_eqb_refl (t : term) : (forall v, veqb vo v v = true) -> term_eqb L leqb V vo t t = true.
+Proof.
+  intros H. unfold term_eqb.
+  rewrite (list_eqb_refl Bool.eqb), (list_eqb_refl leqb), !(list_eqb_refl Nat.eqb), H; try reflexivity.
+  - apply Nat.eqb_refl.
+  - apply Nat.eqb_refl.
+  - apply leqb_refl.
+  - intros []; reflexivity.
+Qed.
+
+Lemma is_exn_result_of (r : outcome unit) : is_exn (result_of L V r) = is_exn r.
+Proof. destruct r; reflexivity. Qed.
+
+Lemma judge_term_sound (m : site_map L) (t : term) :
+  (forall v, veqb vo v v = true) -> term_wfb t = true ->
+  judge_term L leqb V vo m t (is_exn (snd (w_addTerm m t))) (fst (w_addTerm m t)) = [].
+Proof.
+  intros Hv Hwf. unfold judge_term. rewrite Hwf. cbn [negb]. rewrite (w_addTerm_spec m t Hwf).
+  destruct (term_valid m t); cbn [negb]; [|reflexivity].
+  destruct (vnz vo (t_val t)); cbn [fst snd is_exn is_nil list_eqb]; [|reflexivity].
+  rewrite (term_eqb_refl t Hv). reflexivity.
+Qed.
+
+Theorem judge_sound (cfg : config) (o : op) (st : state) :
+  (forall v, veqb vo v v = true) -> fix_shapecheck cfg = true -> op_wf o ->
+  judge L leqb V vo (sites st) o (is_exn (snd (step cfg o st))) (fst (effect cfg (sites st) o)) = [].
+Proof.
+  intros Hv F Hwf. unfold judge.
+  pose proof (effect_fine cfg (sites st) o F Hwf) as Hf.
+  assert (H2 : forallb (term_valid (sites st)) (fst (effect cfg (sites st) o)) = true).
+  { apply forallb_forall. pose proof (wfine_forall _ _ Hf) as Hall. rewrite Forall_forall in Hall. exact Hall. }
+  rewrite H2. cbn [app].
+  destruct (is_effect_op o) eqn:K.
+  - rewrite (step_effect cfg o st K). cbn [snd]. rewrite is_exn_result_of.
+    assert (H1 : is_exn (snd (effect cfg (sites st) o)) && negb (is_nil (fst (effect cfg (sites st) o))) = false).
+    { destruct Hf as [[E _]|[c E]]; rewrite E; reflexivity. }
+    rewrite H1. cbn [app].
+    destruct o; try discriminate K; cbn [Lattice.effect].
+    + apply judge_term_sound; assumption.
+    + pose proof (factory_total f) as Ht. unfold Lattice.wadd_f. destruct (factory_defined L V f).
+      * destruct Ht as [t [E Hw]]. rewrite E. apply judge_term_sound; assumption.
+      * rewrite Ht. reflexivity.
+    + pose proof (preset_spec cfg (sites st) p F) as Hp. unfold spec_of in Hp.
+      destruct (preset_defined (sites st) p).
+      * destruct Hp as [E _]. rewrite E. reflexivity.
+      * destruct Hp as [c E]. rewrite E. reflexivity.
+  - rewrite (effect_other cfg _ o K). cbn [fst wret is_nil negb]. rewrite andb_false_r. cbn [app].
+    destruct o; try discriminate K; reflexivity.
+Qed.
+
 End Proofs.
